@@ -29,6 +29,23 @@ F4_FIELDS = "abcdk"
 UP_VALS = ["u0", "u1"]
 
 
+VIOL_CAP = 40
+
+
+def record(part, sig, case, text):
+    """count every violating case; keep at most VIOL_CAP case records per (signature, seam) and chunk of work (a single
+    defect poisons millions of cases at the thorough tier; every signature still gets recorded instances)"""
+    part.coverage["violating_cases"] = part.coverage.get("violating_cases", 0) + 1
+    seen = part.__dict__.setdefault("_per_sig", {})
+    k = (sig, case.get("seam") or case.get("ctx"))
+    seen[k] = seen.get(k, 0) + 1
+    if seen[k] <= VIOL_CAP:
+        part.violation(sig, case, text)
+    else:
+        part.coverage["violating_cases_not_recorded"] = part.coverage.get("violating_cases_not_recorded", 0) + 1
+
+
+
 def vals(f, n):
     return [f"{f}{i}" for i in range(n)]
 
@@ -148,7 +165,7 @@ def fresh(root):
 def run_request(ctxname, ops, root):
     """-> (exception | None, outputs | None, log, python job dirs)"""
     from vt import tasks, tasks_c05
-    from vt.wfprog import with_watchdog
+    from vt.wfprog import with_watchdog, WATCHDOG, Hang
     cache = fresh(root)
     err = out = None
 
@@ -157,12 +174,21 @@ def run_request(ctxname, ops, root):
             return tasks_c05.apply_ops(tasks.F4(k="n2"), ops)(cache_root=cache).out
         spec = dict(up="split" if ctxname == "node-up" else "plain", up_vals=UP_VALS, ops=ops)
         return tasks_c05.W5(spec=json.dumps(spec))(cache_root=cache).out
-    try:
-        out = with_watchdog(go, 120)
-        if not isinstance(out, str):
-            out = list(out)
-    except Exception as e:  # noqa
-        err = e
+    for budget in (120, 900):
+        err = out = None
+        try:
+            out = with_watchdog(go, budget)
+            if not isinstance(out, str):
+                out = list(out)
+        except Exception as e:  # noqa
+            err = e
+        if not (WATCHDOG["fired"] or isinstance(err, Hang)):
+            break
+        # a busy machine can make a healthy run miss the watchdog: retry once with a much larger budget
+        cache = fresh(root)
+    else:
+        from vt.runner import HarnessError
+        raise HarnessError(f"request {ops} in context {ctxname} did not finish within 900 s")
     dirs = sorted(p.name for p in cache.iterdir() if p.name.startswith("python-"))
     return err, out, tasks.read_log(), dirs
 
@@ -184,7 +210,7 @@ def compare(part, seam, spelling, base, L, got, ref, kw=False):
     case = dict(kind="spelling", seam=seam, spelling="kw" if kw else R.to_json(spelling), base=R.to_json(base), lens=L)
     if got[0] == "ok" and ref[0] == "ok":
         if got[1:] != ref[1:]:
-            part.violation("spellings-run-different-jobs", case,
+            record(part, "spellings-run-different-jobs", case,
                            f"{'split(**values)' if kw else R.show(spelling)} gives {got[1:]} but {R.show(base)} gives {ref[1:]}")
         return
     if got[0] == "err" and ref[0] == "err":
@@ -201,10 +227,10 @@ def compare(part, seam, spelling, base, L, got, ref, kw=False):
                 sig = SIG_WRAP_UP
         if kw and seam == "W" and got[2] == "AssertionError" and len(L) == 1:
             sig = SIG_WRAP_UP  # split(b=...) spells ["b"]
-        part.violation(sig, case, f"{'split(**values)' if kw else R.show(spelling)} is rejected ({got[1]}) "
+        record(part, sig, case, f"{'split(**values)' if kw else R.show(spelling)} is rejected ({got[1]}) "
                                   f"but the equivalent {R.show(base)} runs {len(ref[1])} jobs")
     else:
-        part.violation("spelling-accepted-but-base-rejected", case,
+        record(part, "spelling-accepted-but-base-rejected", case,
                        f"{R.show(spelling)} runs {len(got[1])} jobs but the equivalent {R.show(base)} is rejected ({ref[1]})")
 
 
@@ -285,7 +311,7 @@ def judge_malformed(part, ctxname, kind, ops, root, tree_show):
     case = dict(kind="malformed", ctx=ctxname, what=kind, ops=ops)
     part.case(key=("M", ctxname, json.dumps(ops)), nontrivial=True)
     if err is None:
-        part.violation("ill-formed-request-accepted", case, f"{kind}: {ops} ran and returned {out}")
+        record(part, "ill-formed-request-accepted", case, f"{kind}: {ops} ran and returned {out}")
         return
     if type(err).__name__ == "AssertionError":
         part.coverage["rejected_by_bare_assertion"] = part.coverage.get("rejected_by_bare_assertion", 0) + 1
@@ -294,7 +320,7 @@ def judge_malformed(part, ctxname, kind, ops, root, tree_show):
         if (ctxname.startswith("node") and kind in ("combiner-not-split", "combine-without-split")
                 and log and all(l.endswith("'n1')") for l in log)):
             sig = SIG_LATE
-        part.violation(sig, case, f"{kind}: rejected with {type(err).__name__}: {str(err)[:200]} only after executing "
+        record(part, sig, case, f"{kind}: rejected with {type(err).__name__}: {str(err)[:200]} only after executing "
                                   f"{len(log)} job(s) {log[:3]} (job directories: {len(dirs)})")
 
 
@@ -312,7 +338,7 @@ def malformed_work(part, chunk):
         part.case(key=("M-control", ctxname, R.show(tree)), nontrivial=False)
         if err is not None:
             if not R.shape_ambiguous(tree):
-                part.violation("control-valid-request-rejected", dict(kind="malformed", ctx=ctxname, what="control",
+                record(part, "control-valid-request-rejected", dict(kind="malformed", ctx=ctxname, what="control",
                                ops=[["split", tj, v]]), f"{type(err).__name__}: {err}")
         else:
             part.coverage["valid_controls_ran"] = part.coverage.get("valid_controls_ran", 0) + 1
